@@ -46,6 +46,11 @@ type mHold struct {
 	unit     int64
 	shortBy  bool  // an accepted update shortened the deadline (C06 allows +10 s then)
 	pending  []*aReq // updates answered LOCKED_ERROR whose application is resolved from the next snapshot
+	grantAt  int64   // server time of the grant (engine P: age vs. persistence delay)
+	ef       int     // expiry flags of the request whose terms are in force
+	grantEf  int     // expiry flags of the granting request (aof timing is fixed at the grant)
+	first    bool    // was the first holder of the key when granted
+	grantReq int     // request that created the hold
 }
 
 func (h *mHold) deadline() int64 {
@@ -408,6 +413,7 @@ func (m *aMonitor) onLockReply(k *mKey, r *aReq, rp *aReply) {
 			h.depth++
 			oldDeadline := h.deadline()
 			h.setter, h.termsAt, h.eSec, h.unit = r.Idx, m.e.now, expirySeconds(o), opUnit(o.EF, efMINUTE)
+			h.ef = o.EF
 			// a re-lock replaces the terms like an update does; when it shortens the deadline the statement's
 			// "within 10 seconds of the new deadline" bound applies
 			if h.count != o.Cnt {
@@ -453,7 +459,8 @@ func (m *aMonitor) onLockReply(k *mKey, r *aReq, rp *aReply) {
 			return
 		}
 		k.staleWake = false
-		nh := &mHold{id: rp.LockId, depth: 1, count: o.Cnt, rcount: o.Rc, prio: isPrio, client: o.C, setter: r.Idx, termsAt: m.e.now, eSec: expirySeconds(o), unit: opUnit(o.EF, efMINUTE)}
+		nh := &mHold{id: rp.LockId, depth: 1, count: o.Cnt, rcount: o.Rc, prio: isPrio, client: o.C, setter: r.Idx, termsAt: m.e.now, eSec: expirySeconds(o), unit: opUnit(o.EF, efMINUTE),
+			grantAt: m.e.now, ef: o.EF, grantEf: o.EF, first: len(k.holders) == 0, grantReq: r.Idx}
 		k.holders = append(k.holders, nh)
 		if len(k.holders) > m.info.maxHolders {
 			m.info.maxHolders = len(k.holders)
@@ -706,6 +713,7 @@ func (m *aMonitor) afterOp(op aOp) {
 					oldDeadline := h.deadline()
 					isPrio, _ := opPrio(u.Op)
 					h.setter, h.termsAt, h.eSec, h.unit = u.Idx, u.Time, newE, newUnit
+					h.ef = u.Op.EF
 					if h.count != u.Op.Cnt {
 						k.termsChanged = true
 					}
